@@ -239,3 +239,76 @@ def refcell_across_await(fx):
             bad.append("%s:%s holds %s (borrowed at line %s) across an await" % (b.short.split("::workers::")[-1], line, held[0][0], held[0][1]))
     yield ob("R-C16-5", "await#http#no_refcell_guard_held", n >= 10 and not bad, None, None,
              "%d async bodies analysed (may-hold dataflow of std::cell::Ref / RefMut locals to every yield): %s" % (n, bad[:4] or "none held across an await"), {"async_bodies": n, "held": bad[:10]})
+
+
+@PROP.rule("R-C16-6", floor=2, doc="each request is parsed from its own bytes only: the receive window restarts at 0 for every request, grows by exactly what was read, and the parser sees exactly that window")
+def request_window(fx):
+    b = fx.fn(C + "::Connection::read_request::{closure#0}")
+    n_reads = n_parses = 0
+    bad = set()
+    deferred = set()
+    for p in cpaths(fx, b):
+        last = None          # (start expr text, start expr) of the latest read
+        first = True
+        for e in p.effects:
+            if e[0] != "call":
+                continue
+            if re.search(r"AsyncReadExt::read$", e[1]):
+                n_reads += 1
+                tgt = strip_after(e[2][1])
+                ok_shape = tgt[0] == "call" and re.search(r"IndexMut.*::index_mut$", tgt[1]) and fp(strip_after(tgt[2][0])).rstrip("'").endswith("request_buffer")
+                rng = strip_after(tgt[2][1]) if ok_shape else None
+                f = dict(rng[3]) if rng is not None and rng[0] == "agg" and rng[1].endswith("RangeFrom") else None
+                if f is None or "start" not in f:
+                    bad.add("read target is not request_buffer[start..]: %s" % show(tgt)[:70])
+                    last = None
+                    first = False
+                    continue
+                s = show(strip_after(f["start"]))
+                if first and re.search(r"self\.request_buffer_position$", s):
+                    deferred.add(p)      # accepted second idiom: the position is reset when a request is handed out (checked below)
+                elif first and s != "0:usize":
+                    bad.add("the first read of a request starts at %s, not at 0 (bytes of the previous request stay in the window)" % s[:60])
+                if not first and last is not None and s != last[2]:
+                    bad.add("a later read starts at %s, not where the parsed window ended" % s[:60])
+                first = False
+                last = [s, f["start"], None]
+            elif re.search(r"::parse_request$", e[1]):
+                n_parses += 1
+                src = strip_after(e[2][1])
+                ok_shape = src[0] == "call" and re.search(r"Index.*::index$", src[1]) and fp(strip_after(src[2][0])).rstrip("'").endswith("request_buffer")
+                rng = strip_after(src[2][1]) if ok_shape else None
+                f = dict(rng[3]) if rng is not None and rng[0] == "agg" and rng[1].endswith("RangeTo") else None
+                if f is None or "end" not in f or last is None:
+                    bad.add("parse_request does not read request_buffer[..end] after a read: %s" % show(src)[:70])
+                    continue
+                end = strip_after(f["end"])
+                if not (end[0] == "bin" and end[1] == "Add" and show(strip_after(end[2])) == last[0] and has_call(end[3], r"AsyncReadExt::read$")):
+                    bad.add("parsed window ends at %s, not at (start of the last read + bytes read)" % show(end)[:80])
+                last[2] = show(end)
+    if deferred:
+        # idiom 2: every Ok return leaves the position at 0 and the connection starts with 0
+        from aq.util import who_constructs
+        for p in cpaths(fx, b):
+            if p.end != "return" or p.ret is None or not show(strip_after(p.ret)).startswith("Result::Ok"):
+                continue
+            w = [show(strip_after(e[2])) for e in p.effects if e[0] == "write" and e[5] and e[5][-1] == ("f", "request_buffer_position")]
+            if not w or w[-1] != "0:usize":
+                bad.add("the window starts at the stored position, but an Ok return leaves it at %s" % (w[-1][:40] if w else "its old value"))
+        inits = []
+        for cb, _i, st in who_constructs(fx, r"connection::Connection$", crates={"aquatic_http"}):
+            a = st["rv"]["agg"]
+            names = a.get("fields") or []
+            if "request_buffer_position" in names:
+                op = st["rv"]["ops"][names.index("request_buffer_position")]
+                inits.append(op.get("c", {}).get("int"))
+        if not inits or any(v != 0 for v in inits):
+            bad.add("the window starts at the stored position, which a new connection initialises with %s" % inits)
+    yield ob("R-C16-6", "window#restart_and_growth", n_reads >= 2 and n_parses >= 2 and not bad, b, None,
+             "%d read and %d parse_request effects over all paths: first read at request_buffer[0..], parser given request_buffer[..start + bytes_read], next read "
+             "continues there; deviations: %s" % (n_reads, n_parses, sorted(bad)[:3]), {"reads": n_reads, "parses": n_parses})
+    # the connection loop calls read_request for every request (R-C16-4) and nothing else writes the position
+    from aq.util import field_uses
+    writers = sorted({u[0].short.split("::connection::")[-1] for u in field_uses(fx, r"connection::Connection", "request_buffer_position", crates={"aquatic_http"}) if u[2] == "write"})
+    yield ob("R-C16-6", "window#who_writes_position", writers != [] and set(writers) <= {"Connection::read_request::{closure#0}", "run_connection::{closure#0}", "run_connection::{closure#0}::{closure#0}"},
+             None, None, "request_buffer_position is written in %s" % writers, {"writers": writers})
